@@ -1,3 +1,309 @@
-"""Native replay for C14 (filled in below)."""
+"""Native replay for C14.
+
+Operators: the counterexample operands (and a fixed set of edge values) are fed
+to the REAL occa::primitive::<op> linked from the freshly built libocca; the
+oracle is the host g++ evaluating the same C++ expression on the same operands
+(both sides in one program, so there is no transcription step).
+
+Tree evaluation: `false && (1/0)`, `true || (1/0)`, `c ? a : b` are built from
+the real expression node classes and evaluated in a child process (the
+unfixed folder dies with SIGFPE).
+"""
+import os
+import re
+import subprocess
+
+from . import replaylib
+
+CTYPES = {'bool': 'bool', 'int8': 'int8_t', 'uint8': 'uint8_t', 'int16': 'int16_t', 'uint16': 'uint16_t',
+          'int32': 'int32_t', 'uint32': 'uint32_t', 'int64': 'int64_t', 'uint64': 'uint64_t',
+          'float': 'float', 'double': 'double'}
+ORDER = list(CTYPES)
+# operator -> (C++ expression, definedness predicate, integral operands only)
+OPS = {
+    'not_': ('!x', 'true', False), 'positive': ('+x', 'true', False), 'negative': ('-x', 'def_neg(x)', False),
+    'tilde': ('~x', 'true', True),
+    'lessThan': ('x < y', 'true', False), 'lessThanEq': ('x <= y', 'true', False), 'equal': ('x == y', 'true', False),
+    'notEqual': ('x != y', 'true', False), 'greaterThanEq': ('x >= y', 'true', False), 'greaterThan': ('x > y', 'true', False),
+    'and_': ('x && y', 'true', False), 'or_': ('x || y', 'true', False),
+    'mult': ('x * y', 'def_mul(x, y)', False), 'add': ('x + y', 'def_add(x, y)', False), 'sub': ('x - y', 'def_sub(x, y)', False),
+    'div': ('x / y', 'def_div(x, y)', False), 'mod': ('x % y', 'def_div(x, y)', True),
+    'bitAnd': ('x & y', 'true', True), 'bitOr': ('x | y', 'true', True), 'xor_': ('x ^ y', 'true', True),
+    'rightShift': ('x >> y', 'def_shr(x, y)', True), 'leftShift': ('x << y', 'def_shl(x, y)', True),
+}
+
+PROG = r'''
+#include <occa/types/primitive.hpp>
+#include <cstdio>
+#include <cstring>
+#include <cstdlib>
+#include <cmath>
+#include <limits>
+#include <string>
+#include <type_traits>
+#include <vector>
+#pragma GCC diagnostic ignored "-Wbool-operation"
+using occa::primitive;
+
+template <class T> struct tagof;
+#define TAG(T, t, n) template <> struct tagof<T> { static int tag() { return occa::primitiveType::t; } static const char *name() { return n; } };
+TAG(bool, bool_, "bool") TAG(int8_t, int8_, "int8") TAG(uint8_t, uint8_, "uint8") TAG(int16_t, int16_, "int16")
+TAG(uint16_t, uint16_, "uint16") TAG(int32_t, int32_, "int32") TAG(uint32_t, uint32_, "uint32")
+TAG(int64_t, int64_, "int64") TAG(uint64_t, uint64_, "uint64") TAG(float, float_, "float") TAG(double, double_, "double")
+static const char *tagname(int t) {
+  using namespace occa::primitiveType;
+  switch (t) { case none: return "none"; case bool_: return "bool"; case int8_: return "int8"; case uint8_: return "uint8";
+    case int16_: return "int16"; case uint16_: return "uint16"; case int32_: return "int32"; case uint32_: return "uint32";
+    case int64_: return "int64"; case uint64_: return "uint64"; case float_: return "float"; case double_: return "double";
+    case ptr: return "ptr"; }
+  return "?";
+}
+/* "the C++ result is defined" -- same rules as contracts/C14/spec.h */
+template <class A, class B> bool def_add(A x, B y) { typedef decltype(x + y) R;
+  if constexpr (std::is_floating_point<R>::value) return true; else if constexpr (std::is_signed<R>::value) { R t; return !__builtin_add_overflow(+x, +y, &t); } else return true; }
+template <class A, class B> bool def_sub(A x, B y) { typedef decltype(x - y) R;
+  if constexpr (std::is_floating_point<R>::value) return true; else if constexpr (std::is_signed<R>::value) { R t; return !__builtin_sub_overflow(+x, +y, &t); } else return true; }
+template <class A, class B> bool def_mul(A x, B y) { typedef decltype(x * y) R;
+  if constexpr (std::is_floating_point<R>::value) return true; else if constexpr (std::is_signed<R>::value) { R t; return !__builtin_mul_overflow(+x, +y, &t); } else return true; }
+template <class A, class B> bool def_div(A x, B y) { typedef decltype(x * y) R;
+  if constexpr (std::is_floating_point<R>::value) return true; else { R a = x, b = y;
+    return b != 0 && !(std::is_signed<R>::value && a == std::numeric_limits<R>::min() && b == (R) -1); } }
+template <class A> bool def_neg(A x) { typedef decltype(-x) R;
+  if constexpr (std::is_floating_point<R>::value) return true; else { R a = x; return !(std::is_signed<R>::value && a == std::numeric_limits<R>::min()); } }
+template <class A, class B> bool def_shl(A x, B y) { typedef decltype(+x) L; L a = x; decltype(+y) n = y;
+  if (!(n >= 0 && n < (int) (8 * sizeof(L)))) return false;
+  if (!std::is_signed<L>::value) return true;
+  return a >= 0 && a <= (std::numeric_limits<L>::max() >> n); }
+template <class A, class B> bool def_shr(A x, B y) { typedef decltype(+x) L; decltype(+y) n = y;
+  return n >= 0 && n < (int) (8 * sizeof(L)); }
+
+template <class T> T frombits(unsigned long long b) {
+  if constexpr (std::is_same<T, bool>::value) return (b & 1) != 0;
+  else { T v; memcpy(&v, &b, sizeof(T)); return v; } }
+template <class T> std::string show(T v) {
+  char buf[64];
+  if constexpr (std::is_floating_point<T>::value) snprintf(buf, sizeof buf, "%.17g", (double) v);
+  else if constexpr (std::is_signed<T>::value) snprintf(buf, sizeof buf, "%lld", (long long) v);
+  else snprintf(buf, sizeof buf, "%llu", (unsigned long long) v);
+  return buf; }
+static std::string showp(const primitive &r) {
+  using namespace occa::primitiveType;
+  switch (r.type) { case bool_: return show(r.value.bool_); case int8_: return show(r.value.int8_); case uint8_: return show(r.value.uint8_);
+    case int16_: return show(r.value.int16_); case uint16_: return show(r.value.uint16_); case int32_: return show(r.value.int32_);
+    case uint32_: return show(r.value.uint32_); case int64_: return show(r.value.int64_); case uint64_: return show(r.value.uint64_);
+    case float_: return show(r.value.float_); case double_: return show(r.value.double_); }
+  return "-"; }
+/* the NUMBER held by r equals e (exact, across types); NaN matches NaN; -0.0 != +0.0 */
+template <class E> bool same_value(const primitive &r, E e) {
+  using namespace occa::primitiveType;
+  if constexpr (std::is_floating_point<E>::value) {
+    double a; if (r.type == float_) a = r.value.float_; else if (r.type == double_) a = r.value.double_; else return false;
+    double b = e; if (std::isnan(b)) return std::isnan(a);
+    return a == b && std::signbit(a) == std::signbit(b);
+  } else {
+    __int128 v;
+    switch (r.type) { case bool_: v = r.value.bool_; break; case int8_: v = r.value.int8_; break; case uint8_: v = r.value.uint8_; break;
+      case int16_: v = r.value.int16_; break; case uint16_: v = r.value.uint16_; break; case int32_: v = r.value.int32_; break;
+      case uint32_: v = r.value.uint32_; break; case int64_: v = r.value.int64_; break; case uint64_: v = r.value.uint64_; break;
+      default: return false; }
+    return v == (__int128) e;
+  }
+}
+static int found = 0;
+static const char *KIND;     /* raise | type | value | any */
+template <class E> void judge(const char *text, const std::string &xs, const std::string &ys, E e, bool raised, const primitive &r) {
+  bool bad_type = !raised && r.type != tagof<E>::tag();
+  bool bad_value = !raised && !same_value(r, e);
+  bool hit = (!strcmp(KIND, "raise") && raised) || (!strcmp(KIND, "type") && bad_type) || (!strcmp(KIND, "value") && bad_value) ||
+             (!strcmp(KIND, "any") && (raised || bad_type || bad_value));
+  if (hit && found < 6) {
+    ++found;
+    printf("MISMATCH  %s  with x=%s y=%s :  host g++: %s %s   occa::primitive: %s %s\n", text, xs.c_str(), ys.c_str(),
+           tagof<E>::name(), show(e).c_str(), raised ? "EXCEPTION" : tagname(r.type), raised ? "" : showp(r).c_str());
+  }
+}
+template <class T> std::vector<T> edges() {
+  std::vector<T> v;
+  if constexpr (std::is_same<T, bool>::value) { v.push_back(false); v.push_back(true); }
+  else if constexpr (std::is_floating_point<T>::value) {
+    const T a[] = {(T) 0.0, (T) -0.0, (T) 1, (T) 1.5, (T) -1, (T) 2, (T) 3e9, std::numeric_limits<T>::quiet_NaN(), std::numeric_limits<T>::infinity()};
+    v.assign(a, a + sizeof a / sizeof a[0]);
+  } else {
+    const T a[] = {(T) 0, (T) 1, (T) 2, (T) 3, (T) -1, (T) -8, (T) 31, (T) 33, std::numeric_limits<T>::max(), std::numeric_limits<T>::min()};
+    v.assign(a, a + sizeof a / sizeof a[0]);
+  }
+  return v;
+}
+@CASES@
+int main(int argc, char **argv) {
+  /* argv: ta tb kind xbits ybits */
+  const std::string ta = argv[1], tb = argv[2]; KIND = argv[3];
+  unsigned long long xb = strtoull(argv[4], 0, 0), yb = strtoull(argv[5], 0, 0);
+  bool known = false;
+@DISPATCH@
+  if (!known) { printf("no such type pair\n"); return 2; }
+  printf(found ? "REPRODUCED\n" : "not reproduced\n");
+  return found ? 1 : 0;
+}
+'''
+
+UN_CASE = r'''
+template <class TA> void run_case(unsigned long long xb) {
+  std::vector<TA> xs = edges<TA>(); xs.insert(xs.begin(), frombits<TA>(xb));
+  for (size_t i = 0; i < xs.size(); ++i) { TA x = xs[i];
+    if (!(@DEF@)) continue;
+    auto e = (@EXPR@);
+    primitive r; bool raised = false;
+    try { r = primitive::@OP@(primitive(x)); } catch (...) { raised = true; }
+    judge("@EXPR@", show(x), "-", e, raised, r);
+  }
+}
+'''
+BIN_CASE = r'''
+template <class TA, class TB> void run_case(unsigned long long xb, unsigned long long yb) {
+  std::vector<TA> xs = edges<TA>(); xs.insert(xs.begin(), frombits<TA>(xb));
+  std::vector<TB> ys = edges<TB>(); ys.insert(ys.begin(), frombits<TB>(yb));
+  for (size_t i = 0; i < xs.size(); ++i) for (size_t j = 0; j < ys.size(); ++j) {
+    if (i && j && i != j && (i + j) % 3) continue;     /* counterexample row/column in full, a third of the rest */
+    TA x = xs[i]; TB y = ys[j];
+    if (!(@DEF@)) continue;
+    auto e = (@EXPR@);
+    primitive r; bool raised = false;
+    try { r = primitive::@OP@(primitive(x), primitive(y)); } catch (...) { raised = true; }
+    judge("@EXPR@", show(x), show(y), e, raised, r);
+  }
+}
+'''
+
+
+def _program(op):
+    expr, dfn, integral = OPS[op]
+    unary = 'y' not in expr
+    case = (UN_CASE if unary else BIN_CASE).replace('@DEF@', dfn).replace('@EXPR@', expr).replace('@OP@', op)
+    tys = [t for t in ORDER if not (integral and t in ('float', 'double'))]
+    disp = []
+    for a in tys:
+        if unary:
+            disp.append('  if (ta == "%s") { known = true; run_case<%s>(xb); }' % (a, CTYPES[a]))
+        else:
+            for b in tys:
+                disp.append('  if (ta == "%s" && tb == "%s") { known = true; run_case<%s, %s>(xb, yb); }'
+                            % (a, b, CTYPES[a], CTYPES[b]))
+    return PROG.replace('@CASES@', case).replace('@DISPATCH@', '\n'.join(disp))
+
+
+_built = {}     # (work dir, op) -> executable
+
+
+def _bits_from_trace(trace, fn):
+    """First assignments to the harness locals x and y in function fn: bit patterns."""
+    vals = {}
+    for s in trace or []:
+        if s.get('stepType') != 'assignment':
+            continue
+        if ((s.get('sourceLocation') or {}).get('function') or '') != fn:
+            continue
+        lhs = s.get('lhs')
+        if lhs in ('x', 'y') and lhs not in vals:
+            b = (s.get('value') or {}).get('binary')
+            if b:
+                vals[lhs] = int(b.replace(' ', ''), 2)
+            else:
+                d = (s.get('value') or {}).get('data')
+                vals[lhs] = 1 if d in ('TRUE', 'true', '1') else 0
+    return vals.get('x', 0), vals.get('y', 0)
+
+
 def replay_operator(ctx, g, o, inputs):
-    return None
+    m = re.match(r'(h_\w+): (\w+)\((\w+)(?:,(\w+))?\): (.*)', o.key)
+    if not m:
+        # built-in check inside the extracted operator (overflow, shift ...): try every case of the group natively
+        return {'reproduced': False, 'note': 'obligation is a built-in check inside the extracted function; no operand pair named'}
+    fn, op, ta, tb, what = m.groups()
+    kind = 'raise' if 'no error is raised' in what else 'type' if 'result type' in what else 'value' if 'result value' in what else 'any'
+    if op not in OPS:
+        return None
+    xb, yb = _bits_from_trace(o.trace, fn)
+    key = (ctx.work, op)
+    if key not in _built:
+        replaylib.ensure_lib()
+        d = os.path.join(ctx.work, 'replay-op-' + op)
+        os.makedirs(d, exist_ok=True)
+        src = os.path.join(d, 'replay_%s.cpp' % op)
+        with open(src, 'w') as f:
+            f.write(_program(op))
+        exe = os.path.join(d, 'replay_' + op)
+        cmd = ['g++', '-std=c++17', '-O0', '-w', '-I', os.path.join(replaylib.REPO, 'include'),
+               '-I', os.path.join(replaylib.BUILD, 'include'), src, '-o', exe,
+               '-L', os.path.join(replaylib.BUILD, 'lib'), '-locca', '-Wl,-rpath,' + os.path.join(replaylib.BUILD, 'lib')]
+        rc, out = replaylib.sh(cmd, timeout=900)
+        if rc != 0:
+            raise RuntimeError('replay program failed to compile: ' + out[-1500:])
+        p = os.path.join(replaylib.VERIF, 'replay', 'out', 'C14__replay_%s.cpp' % op)
+        os.makedirs(os.path.dirname(p), exist_ok=True)
+        with open(p, 'w') as f:
+            f.write(_program(op))
+        _built[key] = (exe, p)
+    exe, p = _built[key]
+    rc, out = replaylib.sh([exe, ta, tb or '-', kind, hex(xb), hex(yb)], timeout=120, env=replaylib.env_for_run())
+    lines = [l for l in out.splitlines() if l.startswith('MISMATCH')]
+    return {'reproduced': rc == 1 and bool(lines), 'operator': op, 'operand_types': [ta, tb], 'failing_kind': kind,
+            'counterexample_bits': {'x': hex(xb), 'y': hex(yb)},
+            'oracle': 'host g++ evaluating the same expression on the same operands, in the same program',
+            'mismatches': lines[:6], 'program': p,
+            'how_to_run': '%s %s %s %s %s %s' % (os.path.basename(exe), ta, tb or '-', kind, hex(xb), hex(yb)),
+            'output': out[-800:]}
+
+
+EVAL_PROG = r'''
+#include <occa/internal/lang/expr.hpp>
+#include <cstdio>
+#include <cstring>
+using namespace occa; using namespace occa::lang;
+int main(int argc, char **argv) {
+  primitiveNode zero(NULL, 0), one(NULL, 1), f(NULL, false), t(NULL, true), d(NULL, 2.5);
+  binaryOpNode div(NULL, op::div, one, zero);      /* 1 / 0 : must not be evaluated */
+  const char *w = argv[1];
+  if (!strcmp(w, "and")) { binaryOpNode e(NULL, op::and_, f, div); primitive r = e.evaluate();
+    printf("false && (1/0) = %s (type tag %d)\n", r.toString().c_str(), r.type); return !(r.type == primitiveType::bool_ && !r.value.bool_); }
+  if (!strcmp(w, "or"))  { binaryOpNode e(NULL, op::or_, t, div); primitive r = e.evaluate();
+    printf("true || (1/0) = %s (type tag %d)\n", r.toString().c_str(), r.type); return !(r.type == primitiveType::bool_ && r.value.bool_); }
+  if (!strcmp(w, "cond")) { ternaryOpNode e(t, one, div); primitive r = e.evaluate();
+    printf("true ? 1 : (1/0) = %s\n", r.toString().c_str()); return !(r.type == primitiveType::int32_ && r.value.int32_ == 1); }
+  if (!strcmp(w, "condtype")) { ternaryOpNode e(t, one, d); primitive r = e.evaluate();
+    printf("true ? 1 : 2.5 -> occa type tag %d (%s) ; C++: double (tag %d)\n", r.type, r.toString().c_str(), primitiveType::double_);
+    return r.type != primitiveType::double_; }
+  return 2;
+}
+'''
+
+
+def replay_eval(ctx, g, o, inputs):
+    key = o.key
+    if '&&' in key and '||' not in key:
+        which = 'and'
+    elif '||' in key and '&&' not in key:
+        which = 'or'
+    elif 'result type is the common type' in key:
+        which = 'condtype'
+    elif '?:' in key:
+        which = 'cond'
+    else:
+        return {'reproduced': False, 'note': 'no native scenario for this obligation'}
+    ck = (ctx.work, 'eval')
+    if ck not in _built:
+        rc, out, src = replaylib.compile_run(ctx, 'replay_eval', EVAL_PROG, args=['none'])
+        _built[ck] = os.path.splitext(src)[0]
+        p = os.path.join(replaylib.VERIF, 'replay', 'out', 'C14__replay_eval.cpp')
+        os.makedirs(os.path.dirname(p), exist_ok=True)
+        with open(p, 'w') as f:
+            f.write(EVAL_PROG)
+    exe = _built[ck]
+    p = subprocess.run([exe, which], stdout=subprocess.PIPE, stderr=subprocess.STDOUT, timeout=60, env=replaylib.env_for_run())
+    out = p.stdout.decode(errors='replace')
+    crashed = p.returncode < 0
+    return {'reproduced': p.returncode != 0, 'scenario': {'and': 'false && (1/0)', 'or': 'true || (1/0)',
+                                                          'cond': 'true ? 1 : (1/0)', 'condtype': 'true ? 1 : 2.5'}[which],
+            'observed': ('killed by signal %d (SIGFPE = 8): the unevaluated operand was evaluated' % -p.returncode) if crashed else out.strip(),
+            'expected': 'C++ does not evaluate the right operand / yields the common type',
+            'program': os.path.join(replaylib.VERIF, 'replay', 'out', 'C14__replay_eval.cpp'), 'argument': which}
